@@ -16,17 +16,18 @@ import (
 // Kinds of indexed properties the generators know. Property names are fixed per
 // kind so that queries can be generated from the schema alone.
 const (
-	PString      = "s"      // string, case sensitive
-	PStringCI    = "si"     // string, case insensitive
-	PTags        = "tags"   // string array, case sensitive
-	PTagsCI      = "tagsi"  // string array, case insensitive
-	PInt         = "n"      // integer
-	PFloat       = "x"      // float
-	PNestedInt   = "meta.k" // dotted path, integer
-	PNestedStr   = "meta.name"
-	PFlat        = "fv"  // flat vector index
-	PVamana      = "vec" // graph vector index
-	PText        = "txt" // text index
+	PString    = "s"      // string, case sensitive
+	PStringCI  = "si"     // string, case insensitive
+	PTags      = "tags"   // string array, case sensitive
+	PTagsCI    = "tagsi"  // string array, case insensitive
+	PInt       = "n"      // integer
+	PFloat     = "x"      // float
+	PNestedInt = "meta.k" // dotted path, integer
+	PNestedStr = "meta.name"
+	PDeepInt   = "org.unit.zip" // a path of three segments, integer
+	PFlat      = "fv"           // flat vector index
+	PVamana    = "vec"          // graph vector index
+	PText      = "txt"          // text index
 )
 
 // SchemaOpts selects what a generated schema may contain.
@@ -98,7 +99,7 @@ func genVectorParams(t *rapid.T, label string, o SchemaOpts) (dim uint, metric s
 func Schema(t *rapid.T, o SchemaOpts) models.IndexSchema {
 	s := models.IndexSchema{}
 	if o.Filters {
-		cands := []string{PString, PStringCI, PTags, PTagsCI, PInt, PFloat, PNestedInt, PNestedStr}
+		cands := []string{PString, PStringCI, PTags, PTagsCI, PInt, PFloat, PNestedInt, PNestedStr, PDeepInt}
 		n := rapid.IntRange(o.MinProps, 5).Draw(t, "nfilters")
 		perm := rapid.Permutation(cands).Draw(t, "filter-props")
 		for _, p := range perm[:min(n, len(perm))] {
@@ -113,7 +114,7 @@ func Schema(t *rapid.T, o SchemaOpts) models.IndexSchema {
 				s[p] = models.IndexSchemaValue{Type: models.IndexTypeStringArray, StringArray: &models.IndexStringArrayParameters{IndexStringParameters: models.IndexStringParameters{CaseSensitive: true}}}
 			case PTagsCI:
 				s[p] = models.IndexSchemaValue{Type: models.IndexTypeStringArray, StringArray: &models.IndexStringArrayParameters{IndexStringParameters: models.IndexStringParameters{CaseSensitive: false}}}
-			case PInt, PNestedInt:
+			case PInt, PNestedInt, PDeepInt:
 				s[p] = models.IndexSchemaValue{Type: models.IndexTypeInteger}
 			case PFloat:
 				s[p] = models.IndexSchemaValue{Type: models.IndexTypeFloat}
@@ -213,7 +214,13 @@ func GenFloat(t *rapid.T, label string) float64 {
 	}
 }
 
+// SpacedTags are groupings of the same words into different values: joined with a blank they read the same.
+var SpacedTags = [][]string{{"new york", "city"}, {"new", "york city"}, {"new", "york", "city"}, {"new york city"}, {"a b"}, {"a", "b"}}
+
 func GenTags(t *rapid.T, label string) []string {
+	if rapid.IntRange(0, 7).Draw(t, label+"-spaced") == 0 {
+		return append([]string{}, rapid.SampledFrom(SpacedTags).Draw(t, label+"-sp")...)
+	}
 	n := rapid.IntRange(0, 4).Draw(t, label+"-n")
 	r := make([]string, n)
 	for i := range r {
